@@ -67,6 +67,7 @@ type HistCfg struct {
 	ReflogAfter       bool // run `reflog` after every invocation and compare with the listing before
 	CatTrees          bool // `cat-file -p` every tree of a new commit
 	AbsRefine         bool // compare abs(state) around every command with the abstract state machine
+	WorldAlways       bool // replay on the whole-repository model even when the command models are off (damaged repositories)
 
 }
 
@@ -378,7 +379,7 @@ func (h *Hist) X(tz int, args ...string) *Trans {
 			h.derived = append(h.derived, *d)
 		}
 	}
-	if !h.cfg.NoDerive {
+	if !h.cfg.NoDerive || h.cfg.WorldAlways {
 		h.world = append(h.world, worldStep{pre: pre, post: post, args: args, tz: tz, res: res, stepNo: t.StepNo})
 	}
 	if !h.cfg.NoDerive {
